@@ -23,7 +23,8 @@ Decl(v) == [s |-> "decl", v |-> v]
 Walrus(v) == [s |-> "walrus", v |-> v, e |-> [e |-> "site", k |-> 2]]
 For(t) == [s |-> "for", t |-> t]
 Except(n) == [s |-> "except", name |-> n]
-With(t) == [s |-> "with", t |-> t, k |-> 3]
+NoT == [t |-> "none"]
+With(t) == [s |-> "with", t |-> t, k |-> 3]                \* t: a target (name, attribute, subscript, tuple, starred) or NoT
 Import(n) == [s |-> "import", name |-> n]
 Match(ns) == [s |-> "match", names |-> ns, k |-> 3]        \* match <subject>: case (<capture patterns ns>): ...
 Return == [s |-> "return", e |-> [e |-> "site", k |-> 2]]
@@ -41,7 +42,7 @@ Py2(st) ==
     [] st.s = "walrus" -> PyEval(st.e) \o << <<"bind", st.v, <<"V">>>> >>
     [] st.s = "for" -> << <<"next">> >> \o PyStore(st.t, <<"V">>)
     [] st.s = "except" -> IF st.name = "" THEN <<>> ELSE << <<"bind", st.name, <<"E">>>> >>
-    [] st.s = "with" -> << <<"eval", st.k>>, <<"cm_enter">> >> \o (IF st.t = "" THEN <<>> ELSE << <<"bind", st.t, <<"W">>>> >>)
+    [] st.s = "with" -> << <<"eval", st.k>>, <<"cm_enter">> >> \o (IF st.t = NoT THEN <<>> ELSE PyStore(st.t, <<"W">>))
     [] st.s = "import" -> << <<"bind", st.name, <<"M">>>> >>
     [] st.s = "match" -> << <<"eval", st.k>> >> \o [i \in DOMAIN st.names |-> <<"bind", st.names[i], <<"V", ToString(i - 1)>>>>]
     [] st.s = "return" -> PyEval(st.e) \o << <<"return", <<"V">>>> >>
@@ -71,7 +72,8 @@ X2(st, I) ==
     [] st.s = "walrus" -> PyEval(st.e) \o (IF Instr(I, st.v) THEN << <<"interact", st.v, "none", <<"V">>>> >> ELSE <<>>) \o << <<"bind", st.v, <<"V">>>> >>
     [] st.s = "for" -> LET g == GenI(st.t, <<"V">>, I) IN IF NotImpl(g) THEN << <<"notimplemented">> >> ELSE Py2(st) \o g
     [] st.s = "except" -> Py2(st) \o (IF st.name = "" THEN <<>> ELSE After(I, st.name, <<"E">>))
-    [] st.s = "with" -> Py2(st) \o (IF WithRewritten /\ st.t # "" THEN After(I, st.t, <<"W">>) ELSE <<>>)   \* visit_With since fix 2ab3d3a
+    [] st.s = "with" ->        \* visit_With since fix 2ab3d3a: generate_interactions(optional_vars) at the head of the block
+         Py2(st) \o (IF WithRewritten /\ st.t # NoT THEN GenI(st.t, <<"W">>, I) ELSE <<>>)
     [] st.s = "import" -> Py2(st) \o After(I, st.name, <<"M">>)
     [] st.s = "match" ->       \* visit_match_case since fix 6ec7608: one interaction per captured name at the head of the case body;
                                \* before, the names were taken for globals and prefetched at entry: the call failed there
@@ -104,7 +106,11 @@ Signature2(st, I) ==
 LoopElts == {Nm("a"), Nm("b"), St("c"), At("o", "p"), Sb("o", 7)}
 LoopTargets == {Nm("a"), At("o", "p"), Sb("o", 7)} \cup {Tp(s) : s \in {x \in Seqs(LoopElts, 2) : OneStar(x)}}
                \cup {Tp(<<Nm("a"), Tp(<<Nm("b"), Nm("c")>>)>>), Tp(<<Tp(<<Nm("a"), St("c")>>), Nm("b")>>)}
-Stmts2 == {Aug(t) : t \in Atoms} \cup {Ann("a"), Decl("a"), Walrus("a"), Except("a"), Except(""), With("w"), With(""), Import("a"), Return, FallOff, Match(<<"a">>), Match(<<"a", "b">>), Match(<<"b", "a", "c">>)}
-          \cup {For(t) : t \in LoopTargets}
+Stmts2 == {Aug(t) : t \in Atoms} \cup {Ann("a"), Decl("a"), Walrus("a"), Except("a"), Except(""), With(Nm("w")), With(NoT), Import("a"), Return, FallOff, Match(<<"a">>), Match(<<"a", "b">>), Match(<<"b", "a", "c">>)}
+          \cup {For(t) : t \in LoopTargets} \cup {With(t) : t \in LoopTargets}
+\* what the conformance run needs: the stream of a statement as text - <<name, path of the value inside the iteration / context value>>
+RECURSIVE Path(_)
+Path(src) == IF Len(src) = 1 THEN src[1] ELSE Path(SubSeq(src, 1, Len(src) - 1)) \o "." \o src[Len(src)]
+GivenText(st, I) == [i \in DOMAIN Given(st, I) |-> <<Given(st, I)[i][1], Path(Given(st, I)[i][2])>>]
 InstrSets2 == {{"*"}} \cup SUBSET {"a", "b", "c", "o", "w", "#value"}
 =============================================================================
